@@ -18,7 +18,7 @@ LEVEL = "exploration"
 SHARDS = {"quick": 1, "thorough": 16}
 REQUIRED = ("families_with_counted_sequences_of_possibly_empty_elements", "families_ending_in_an_odd_width_int", "prefix_cases", "suffix_cases", "failing_cases_shifted", "values_compared", "end_offsets_compared",
             "raw_slice_equivalence", "hostile_pre_with_delimiters", "nested_families", "moves_under_offset",
-            "inputs_of_declarations_with_a_position_before_the_wrapper", "same_object_reparses", "corrupted_inputs")
+            "inputs_of_declarations_with_a_position_before_the_wrapper", "same_object_reparses", "corrupted_inputs", "steering_bytes_swept_over_small_negative_values")
 MIN_NONTRIVIAL = 150
 RULE = {
     "quick": "~140 families of mostly fixed-size fields placed back over consumed bytes (at / negative shift) + ~420 generated families (no 'begins' reference, no class align, no repeated(aligned=), no raw/offset callbacks) x 8 inputs x 4 "
@@ -236,7 +236,12 @@ def run(run):
                                  driver.families(run, rng, tail_int, VARIANTS, nfam // 7, instrument=(), tag="c14t"),
                                  driver.families(run, rng, dict(profile, accept=predicates.counted_sequence_of_possibly_empty_elements, p_rep=0.4,
                                                                 kinds={"int": 40, "data": 45, "bits": 3, "ref": 8, "sel": 3, "em": 1}),
-                                                 VARIANTS, nfam // 10, instrument=(), tag="c14z")):
+                                                 VARIANTS, nfam // 10, instrument=(), tag="c14z"),
+                                 driver.families(run, rng, dict(profile, accept=predicates.early_computed_size_that_can_go_negative, p_move=0.05, p_rep=0.05,
+                                                                p_opt=0.05, kinds={"int": 50, "data": 42, "bits": 2, "ref": 4, "sel": 1, "em": 1},
+                                                                int_widths=[1, 1, 1, 2]),
+                                                 VARIANTS, nfam // 10, instrument=(), tag="c14n")):
+        negsize = predicates.early_computed_size_that_can_go_negative(bench.fam)
         if predicates.counted_sequence_of_possibly_empty_elements(bench.fam):
             run.count("families_with_counted_sequences_of_possibly_empty_elements")
         if ends_in_an_odd_width_int(bench.fam):
@@ -271,6 +276,21 @@ def run(run):
                     if bad != raw:
                         run.count("corrupted_inputs")
                         one_input(run, bench, rng, bad, sampled)
+        if negsize:
+            # every small negative / small positive value of each steering byte of one valid input: a size of -(cursor + k)
+            # puts the cursor k bytes before the start of the record
+            run.count("families_with_an_early_computed_size_that_can_go_negative")
+            raw, oc = model.generate_input(fam, rng, maxlen=60)
+            st0, mr0 = harness.model_parse(fam, raw, 0)
+            steer = [p for p in (workloads.interesting_positions(fam, mr0) if st0 == "ok" else []) if p < min(len(raw), 6)]
+            for p in steer[:3]:
+                for val in (0xFF, 0xFE, 0xFD, 0xFC, 0xFB, 0xFA, 0xF9, 0xF8, 0, 1, 2, 3):
+                    b = bytearray(raw)
+                    b[p] = val
+                    if bytes(b) != raw:
+                        run.count("corrupted_inputs")
+                        run.count("steering_bytes_swept_over_small_negative_values")
+                        one_input(run, bench, rng, bytes(b), sampled)
         if run.counters["violations"] > 30:
             break
 
